@@ -262,6 +262,7 @@ pub struct AsWorld {
     ticks_done: u32,
     stop_fired_at: Option<u64>,
     fault_before_quiescence: bool,
+    fault_reason: Option<&'static str>,
     trace_on: bool,
     trace: Vec<String>,
     script_pos: usize,
@@ -703,6 +704,7 @@ impl World for AsWorld {
             ticks_done: 0,
             stop_fired_at: None,
             fault_before_quiescence: false,
+            fault_reason: None,
             trace_on: trace,
             trace: vec![],
             script_pos: 0,
@@ -911,6 +913,7 @@ impl World for AsWorld {
                         // the agent ended on its own (a handler failed): the run is no longer a
                         // fault-free run and the quiescence oracles do not apply
                         self.fault_before_quiescence = true;
+                        self.fault_reason.get_or_insert("the agent ended on its own");
                     }
                     let r = self.subject.result.as_ref().map(|r| r.as_ref().map(|_| ()).map_err(|e| e.to_string()));
                     self.completed_step = Some(self.step);
@@ -944,12 +947,14 @@ impl World for AsWorld {
                 }
                 if !self.quiescent_seen {
                     self.fault_before_quiescence = true;
+                    self.fault_reason.get_or_insert("clock tick before quiescence (deviation)");
                 }
                 tokio::time::advance(INACTIVE_TIMEOUT + Duration::from_millis(1)).await;
             }
             EV_STOP => {
                 if !self.quiescent_seen {
                     self.fault_before_quiescence = true;
+                    self.fault_reason.get_or_insert("stop before quiescence (deviation)");
                 }
                 if let Some(s) = self.stop_tx.take() {
                     s.trigger();
@@ -1086,6 +1091,7 @@ impl World for AsWorld {
             c if c >= EV_DROP => {
                 let i = (c - EV_DROP) as usize;
                 self.fault_before_quiescence = true;
+                self.fault_reason.get_or_insert("a remote was dropped (deviation)");
                 let step = self.step;
                 let r = &mut self.remotes[i];
                 r.tx = None;
@@ -1167,6 +1173,29 @@ impl World for AsWorld {
             rk.write_failed = rj.write_failed;
             rk.completion_reason = rj.completion_reason;
             rk.completed_at_quiescence = rj.completed_at_quiescence;
+        }
+        // what the quiescence laws of the oracles can say about this execution (evidence, see
+        // vcommon::sched::oracle_note)
+        if self.fault_before_quiescence {
+            vcommon::sched::oracle_note(&format!("quiescence laws skipped: {}", self.fault_reason.unwrap_or("fault")));
+            // An agent that ends by itself while its remotes still have work for it - no stop, no clock
+            // tick, no injected fault, no failure that the script asked for - has failed every promise
+            // the properties make about what it delivers.
+            let asked = format!("{:?}", result);
+            let plain = self.cfg.store_fault.is_none() && self.cfg.crash_at.is_none() && !self.cfg.restart && (self.cfg.extra.is_empty() || self.cfg.extra == "pair-agent");
+            let timed = self.cfg.script.iter().any(|(_, s)| matches!(s, Step::Wait(_)));
+            if self.fault_reason == Some("the agent ended on its own") && plain && !timed && !asked.contains("requested failure") && !asked.contains("verif: injected") {
+                let class = match &result {
+                    Some(Ok(())) => "Ok".to_string(),
+                    Some(Err(e)) => format!("Err({})", e.chars().take(70).collect::<String>()),
+                    None => "none".to_string(),
+                };
+                self.extra_violations.push((format!("as: the agent ended on its own before its remotes were served result={}", class), format!("no stop, tick or fault was injected and the script requests no failure; result {:?}", result)));
+            }
+        } else if self.truth_at_quiescence.is_none() {
+            vcommon::sched::oracle_note("quiescence laws skipped: no quiescence recorded");
+        } else {
+            vcommon::sched::oracle_note("quiescence laws judged");
         }
         let obs = Observation {
             cfg: self.cfg.clone(),
